@@ -15,6 +15,9 @@ import (
 var (
 	regFlags         = regexp.MustCompile(`flags=\(([^)]+)\)`)
 	regProfileHeader = regexp.MustCompile(` {\n`)
+
+	// regBlockHeader matches the header line of a profile, a sub-profile or a hat
+	regBlockHeader = regexp.MustCompile(`(?m)^[\t ]*(profile[\t ]|hat[\t ]|\^)[^\n]*{\n`)
 )
 
 type Complain struct {
@@ -31,6 +34,14 @@ func init() {
 }
 
 func (b Complain) Apply(opt *Option, profile string) (string, error) {
+	// Edit each block header on its own, from its own flags
+	if regBlockHeader.FindString(profile) != profile {
+		return regBlockHeader.ReplaceAllStringFunc(profile, func(header string) string {
+			header, _ = b.Apply(opt, header)
+			return header
+		}), nil
+	}
+
 	flags := []string{}
 	matches := regFlags.FindStringSubmatch(profile)
 	if len(matches) != 0 {
